@@ -31,3 +31,5 @@ def run(ctx):
     D.r06_7_alias_bookkeeping(ctx)
     from . import roundtrip as R
     R.r05_3_pairs(ctx, 'R06.8')
+    from . import helpers_rules as H
+    H.r14_1_scalar_table(ctx, 'R06.9')
